@@ -184,6 +184,23 @@ def _ndim_test(test: ast.AST, arr: str) -> Optional[bool]:
     return None
 
 
+def _counts_samples(ctx, f, e, arr: str) -> bool:
+    """The expression is (or chooses) the length of the FIRST axis of the input array: `arr.shape[0]`, `len(arr)`."""
+    e = resolve_local(ctx, f, e)
+    if isinstance(e, ast.Call):
+        body = inline_helper_call(ctx, f, e)
+        if body is not None:
+            e = body
+    for n in ast.walk(e):
+        if isinstance(n, ast.Subscript) and isinstance(n.value, ast.Attribute) and n.value.attr == "shape" and isinstance(n.value.value, ast.Name) \
+                and n.value.value.id == arr and ast.unparse(n.slice) == "0":
+            return True
+        if isinstance(n, ast.Call) and isinstance(n.func, ast.Name) and n.func.id == "len" and len(n.args) == 1 \
+                and isinstance(n.args[0], ast.Name) and n.args[0].id == arr:
+            return True
+    return False
+
+
 def _is_col_count(ctx, f, e, arr: str) -> bool:
     """`inp.shape[-1] if inp.ndim > 1 else 1` (or inp.shape[-1] / inp.shape[1])."""
     e = resolve_local(ctx, f, e)
@@ -467,6 +484,8 @@ def r2_column_to_node(ctx, rid):
                             if is_target_list(a_.args[0], note=False):
                                 if _is_col_count(ctx, f, b_, inp_param):
                                     found = c
+                                elif _counts_samples(ctx, f, b_, inp_param):
+                                    other_len = c          # number of time samples (first axis), not of columns
                                 else:
                                     undecided = c
                             else:
